@@ -24,7 +24,7 @@ fn main() {
     // A binary whose measured profile contradicts the configuration it is supposed to cover is an
     // inconclusive run (exit 2), never a verdict.
     let (h, g) = (simd::ovf(), simd::glam_ovf());
-    if h != g || (args.build == "chk" && !h) || (args.build == "stable" && h && !args.out.is_empty()) {
+    if h != g || ((args.build == "chk" || args.build == "ovf") && !h) || (args.build == "stable" && h && !args.out.is_empty()) {
         eprintln!("c13: profile mismatch: build={} harness overflow-checks={} glam overflow-checks={}", args.build, h, g);
         std::process::exit(2);
     }
